@@ -1,6 +1,7 @@
 """C04 - reading IMSC/TTML XML follows TTML timing, styling and white-space semantics."""
 import copy
 import logging
+import zlib
 import xml.etree.ElementTree as et
 from collections import Counter
 
@@ -38,7 +39,7 @@ ASSUMPTIONS = [
   "the non-white-space characters of each text node; foreign-namespace attributes need not be logged",
 ]
 
-TIMING = gen_ttml.profile(p_time=0.38, p_seq=0.3, attrs=(0, 1), n_styles=(0, 3), style_refs=(0, 1), elem_refs=(0, 1), initials=(0, 1),
+TIMING = gen_ttml.profile(p_time=0.38, p_seq=0.3, attrs=(0, 1), n_styles=(1, 3), style_refs=(0, 1), elem_refs=(0, 2), initials=(0, 1),
                           regions=(0, 2), nested=(0, 1), sets=(0, 0, 0, 1), max_nodes=26,
                           props=["Color", "BackgroundColor", "Display", "Opacity", "FontSize", "TextAlign", "Visibility", "Extent", "Origin",
                                  "FontStyle", "TextDecoration"])
@@ -46,12 +47,15 @@ STYLING = gen_ttml.profile(p_time=0.12, p_seq=0.15, attrs=(0, 3), n_styles=(3, 7
                            initials=(0, 2), regions=(1, 3), nested=(0, 2), sets=(0, 0, 1, 2), max_nodes=16, fanout=2, ruby=True,
                            p_missing_ref=0.08)
 R1 = gen_ttml.profile(p_time=0.45, p_seq=0.15, attrs=(0, 0), n_styles=(0, 0), elem_refs=(0, 0), initials=(0, 0), regions=(0, 1),
-                      sets=(0,), max_nodes=14, avoid_r1=False, props=["Color"], preserve=False, langs=False, p_inverted=0)
+                      sets=(0,), max_nodes=14, avoid_r1=False, force_r1=True, props=["Color"], preserve=False, langs=False, p_inverted=0)
 R2 = gen_ttml.profile(p_time=0.3, p_seq=0.6, attrs=(0, 0), n_styles=(0, 0), elem_refs=(0, 0), initials=(0, 0), regions=(0, 1),
                       sets=(0,), max_nodes=14, avoid_r2=False, props=["Color"], preserve=False, langs=False, p_inverted=0)
 CORRUPT = gen_ttml.profile(p_time=0.3, p_seq=0.2, attrs=(0, 2), n_styles=(1, 3), style_attrs=(1, 2), style_refs=(0, 1), elem_refs=(0, 2),
                            initials=(0, 1), regions=(1, 2), nested=(0, 1), sets=(0, 0, 1), max_nodes=12, fanout=2)
 
+VALUES = gen_ttml.profile(p_time=0.05, p_seq=0.0, attrs=(0, 1), n_styles=(0, 1), elem_refs=(0, 1), initials=(0, 0), regions=(0, 1),
+                          sets=(0,), max_nodes=10, fanout=2, hiding=False, exotic=gen_ttml.EXOTIC,
+                          props=["Color", "BackgroundColor", "FontSize", "TextAlign", "Extent", "Origin", "FontStyle"])
 R1_BUCKET = "timing:implicit-end:par-container-at-nonzero-offset"
 R2_BUCKET = "crash:TypeError:seq-child-after-indefinite-sibling"
 
@@ -259,24 +263,35 @@ def check(case, res):
   xml_text = gen_ttml.to_xml(desc)
   rich = classify(desc, info, res)
   res.evals = 1
+  if info["ambiguous"]:
+    res.label("skipped:ambiguous-inverted-interval")   # only reachable through shrinking: the generator repairs these
+    return
   try:
     doc, _ = read(xml_text)
   except Exception as e:  # pylint: disable=broad-except
-    if isinstance(e, TypeError) and info["r2_sites"]:
+    if desc.get("exotic"):
+      res.label("exotic:" + desc["exotic"])
+      res.fail("value:crash:%s:%s" % (type(e).__name__, desc["exotic"]), "%s: %s" % (type(e).__name__, e))
+    elif isinstance(e, TypeError) and info["r2_sites"]:
       res.label("known:r2-site")
       res.fail(R2_BUCKET, "%s: %s (seq children %r follow a sibling without a definite end)" % (type(e).__name__, e, info["r2_sites"]))
     else:
       res.crash(e, "read:")
     return
-  if info["r1_sites"]:
-    # documents containing the trigger of finding R-1 are judged as a whole under the finding's own bucket
-    res.label("known:r1-site")
+  if info["r1_sites"] or desc.get("exotic"):
+    # documents containing the trigger of finding R-1 (or one of the value shapes of part values) are judged as a whole under one
+    # bucket named after the trigger
+    res.label("known:r1-site" if info["r1_sites"] else "exotic:" + desc["exotic"])
     sub = Res()
     n, shown = compare_doc(doc, spec, desc, sub)
     res.labels.update(sub.labels)
     res.evals += n
-    if sub.fails:
+    if shown:
+      res.label("presents-content")
+    if sub.fails and info["r1_sites"]:
       res.fail(R1_BUCKET, "offset par containers %r without dur/end: %s %s" % (info["r1_sites"], sub.fails[0][0], sub.fails[0][1]))
+    elif sub.fails:
+      res.fail("value:%s" % desc["exotic"], "%s %s" % (sub.fails[0][0], sub.fails[0][1]))
     return
   n, shown = compare_doc(doc, spec, desc, res)
   res.evals += n
@@ -335,19 +350,27 @@ def corruptions(desc):
   """every single-attribute corruption applicable to the description: (owner, key, class, malformed values)"""
   out = []
   tt = desc["tt"]
-  uses_frames = False
+  syns = Counter()
+  max_ff = 0
+
+  def seen(t):
+    nonlocal max_ff
+    syns[t["syn"]] += 1
+    if t["syn"] == "clockf":
+      max_ff = max(max_ff, t["q"][1])
+
   for n in gen_ttml.walk_desc(desc):
     for k in ("begin", "dur", "end"):
       if n[k] is not None:
         out.append((n["id"], k, "time-syntax", TIME_BAD))
-        out.append((n["id"], k, "time-frame-suffix", TIME_FRAME_JUNK))
-        uses_frames = uses_frames or n[k]["syn"] in ("f", "clockf")
+        out.append((n["id"], k, "time-frame-trailing-junk", TIME_FRAME_JUNK))
+        seen(n[k])
     for i, stp in enumerate(n["sets"]):
       for k in ("begin", "dur", "end"):
         if stp[k] is not None:
           out.append(("%s/set%d" % (n["id"], i), k, "time-syntax", TIME_BAD))
-          uses_frames = uses_frames or stp[k]["syn"] in ("f", "clockf")
-      out += style_corruptions("%s/set%d" % (n["id"], i), [stp["attr"]])
+          seen(stp[k])
+      out += style_corruptions("%s/set%d" % (n["id"], i), [stp["attr"]] if stp["attr"] is not None else [])
     for i, at in enumerate(n["nested"]):
       out += style_corruptions("%s/nested%d" % (n["id"], i), at)
     out += style_corruptions(n["id"], n["attrs"])
@@ -365,22 +388,25 @@ def corruptions(desc):
     out.append(("tt", "cell", "cellResolution", ["32", "a b", "32x15", "", "32,15"]))
     out.append(("tt", "cell", "cellResolution-trailing-junk", ["%d %dx" % tuple(tt["cell"]), "%d %d 7" % tuple(tt["cell"])]))
   if tt["extent"] is not None:
-    out.append(("tt", "extent", "tt-extent-one-token", ["1920px", "auto"]))
-    out.append(("tt", "extent", "tt-extent-not-a-length", ["a b", "1920 1080", "1920px 1080xx"]))
+    out.append(("tt", "extent", "tt-extent-one-token", ["1920px", "640px"]))
+    out.append(("tt", "extent", "tt-attribute-not-a-length", ["a b", "1920 1080", "1920px 1080xx"]))
     out.append(("tt", "extent", "tt-extent-not-px", ["100% 100%", "32c 15c"]))
   if tt["active_area"] is not None:
     out.append(("tt", "active_area", "activeArea-arity", ["10% 10% 80%", "10%", "1% 1% 1% 1% 1%"]))
-    out.append(("tt", "active_area", "activeArea-not-a-length", ["a b c d", "10 10 80 80"]))
+    out.append(("tt", "active_area", "tt-attribute-not-a-length", ["a b c d", "10 10 80 80"]))
     out.append(("tt", "active_area", "activeArea-not-percent", ["10px 10px 80px 80px"]))
   if tt["aspect"] is not None:
     out.append(("tt", "aspect", "aspectRatio", ["16:9", "16", "a b", "16 0", ""]))
-  if tt["fps"] is not None:
+  # without ttp:frameRate the default of 30 applies (TTML2 7.2.5): clock times whose frame field is >= 30 would become malformed
+  # themselves, so the frame rate is only corrupted when no such expression exists
+  if tt["fps"] is not None and max_ff < 30:
     out.append(("tt", "fps", "frameRate", ["abc", "", "-25", "x25"]))
-    if uses_frames:
+    if syns["f"] or syns["clockf"]:
       out.append(("tt", "fps", "frameRate-zero", ["0"]))
   if tt["frm"] is not None:
     out.append(("tt", "frm", "frameRateMultiplier", ["1000", "1000/1001", "a b", ""]))
-  if tt["tick"] is not None:
+  # TTML2 7.2.10: the default tick rate depends on the frame rate when one is given; only the unconditional default (1) is asserted
+  if tt["tick"] is not None and (tt["fps"] is None or not syns["t"]):
     out.append(("tt", "tick", "tickRate", ["abc", "", "-1", "x"]))
   if tt["space"] is not None:
     out.append(("tt", "space", "xml-space", ["bogus", "PRESERVE"]))
@@ -396,6 +422,8 @@ def without(desc, owner, key):
   d = copy.deepcopy(desc)
   if owner == "tt":
     d["tt"][key] = None
+    if key in ("fps", "frm", "tick"):
+      gen_ttml.reinterpret(d)
     return d
   if owner.startswith("initial"):
     i = int(owner[7:])
@@ -412,7 +440,7 @@ def without(desc, owner, key):
     if sub.startswith("set"):
       i = int(sub[3:])
       if key.startswith("style:"):
-        del n["sets"][i]          # a set without its style attribute animates nothing
+        n["sets"][i]["attr"] = None          # animates nothing, but still is a timed child of its parent
       else:
         n["sets"][i][key] = None
     elif sub.startswith("nested"):
@@ -429,14 +457,16 @@ def without(desc, owner, key):
 def has_sites(desc):
   info = {}
   gen_ttml.to_docspec(desc, info)
-  return bool(info["r1_sites"] or info["r2_sites"])
+  return bool(info["r1_sites"] or info["r2_sites"] or info["ambiguous"])
 
 
 @st.composite
 def corrupt_cases(draw, prof):
   desc = draw(gen_ttml.descs(prof))
-  if draw(st.integers(0, 9)) < 2:
-    kind, name, value = draw(st.sampled_from(ADDITIONS))
+  # Hypothesis favours small draws; mixing in a checksum of the document spreads the choice of class and target evenly
+  mix = zlib.crc32(gen_ttml.to_xml(desc).encode("utf-8"))
+  if draw(st.integers(0, 9)) >= 9:
+    kind, name, value = ADDITIONS[(mix + draw(st.integers(0, 5))) % len(ADDITIONS)]
     owners = ["tt"] + [n["id"] for n in gen_ttml.walk_desc(desc)] + [sty["id"] for sty in desc["styles"]]
     return {"desc": desc, "corrupt": {"owner": draw(st.sampled_from(owners)), "add": (name, value)}, "class": kind}
   cands = corruptions(desc)
@@ -444,13 +474,13 @@ def corrupt_cases(draw, prof):
     return {"desc": desc, "corrupt": {"owner": "tt", "add": ("foo", "bar")}, "class": "unknown-attribute"}
   # classes first so that rare ones are not drowned by the many time / style attributes
   classes = sorted({c[2] for c in cands})
-  cls = draw(st.sampled_from(classes))
+  cls = classes[(mix + draw(st.integers(0, 63))) % len(classes)]
   pool = [c for c in cands if c[2] == cls]
-  start = draw(st.integers(0, len(pool) - 1))
+  start = (mix // 64 + draw(st.integers(0, 15))) % len(pool)
   for j in range(len(pool)):
     owner, key, cls, values = pool[(start + j) % len(pool)]
     # the expectation (attribute absent) must stay clear of the triggers of findings R-1 / R-2
-    if key in ("begin", "dur", "end", "tc") and has_sites(without(desc, owner, key)):
+    if (key in ("begin", "dur", "end", "tc") or owner == "tt") and has_sites(without(desc, owner, key)):
       continue
     return {"desc": desc, "corrupt": {"owner": owner, "key": key, "value": draw(st.sampled_from(values))}, "class": cls}
   return {"desc": desc, "corrupt": {"owner": "tt", "add": ("foo", "bar")}, "class": "unknown-attribute"}
@@ -465,7 +495,7 @@ def check_corrupt(case, res):
   expected = desc if "add" in cor else without(desc, cor["owner"], cor["key"])
   info = {}
   spec = gen_ttml.to_docspec(expected, info)
-  if info["r1_sites"] or info["r2_sites"]:
+  if info["r1_sites"] or info["r2_sites"] or info["ambiguous"]:
     res.label("corrupt:skipped-known-site")
     return
   xml_text = gen_ttml.to_xml(desc, cor)
@@ -521,9 +551,19 @@ def simplifications(case):
     out.append(lambda d, i=i: d["styles"].pop(i))
   for i in range(len(desc["initials"])):
     out.append(lambda d, i=i: d["initials"].pop(i))
-  for key in ("cell", "extent", "active_area", "aspect", "frm", "space"):
-    if desc["tt"][key] is not None and key != "extent":
-      out.append(lambda d, key=key: d["tt"].__setitem__(key, None))
+  syns = set()
+  for n in elems(desc):
+    for t in [n[k] for k in ("begin", "dur", "end")] + [stp[k] for stp in n["sets"] for k in ("begin", "dur", "end")]:
+      if t is not None:
+        syns.add(t["syn"])
+  for key in ("cell", "active_area", "aspect", "frm", "space", "fps", "tick"):
+    if desc["tt"][key] is None:
+      continue
+    if (key in ("fps", "frm") and syns & {"f", "clockf"}) or (key == "tick" and "t" in syns):
+      continue        # would change the meaning of time expressions
+    if key == "fps" and desc["tt"]["frm"] is not None:
+      continue
+    out.append(lambda d, key=key: d["tt"].__setitem__(key, None))
   if desc["ns"]["tt"] or desc["ns"]["pretty"]:
     out.append(lambda d: d["ns"].update(tt="", pretty=False, tts="tts", ttp="ttp"))
   n_el = len(elems(desc))
@@ -610,6 +650,8 @@ PARTS = {
                                    "presents-content")),
   "r1": Part("r1", check, strategy=cases(R1), n=(96, 4800), shrinker=simplifications, required_labels=("known:r1-site",)),
   "r2": Part("r2", check, strategy=cases(R2), n=(96, 4800), shrinker=simplifications, required_labels=("known:r2-site",)),
+  "values": Part("values", check, strategy=cases(VALUES), n=(160, 4800), shrinker=simplifications,
+                 required_labels=tuple("exotic:" + f for f in gen_ttml.EXOTIC)),
   "corrupt": Part("corrupt", check_corrupt, strategy=lambda tier: corrupt_cases(CORRUPT), n=(400, 40000), shrinker=simplifications,
                   required_labels=("corrupt:time-syntax", "corrupt:enum-token", "corrupt:length", "corrupt:color",
                                    "corrupt:unknown-attribute", "corrupt:foreign-attribute")),
